@@ -21,11 +21,13 @@ type Exec struct {
 }
 
 type Config struct {
-	Bound    int // max preemptions; <0 = unbounded
-	MaxExec  int // 0 = no cap
-	Deadline time.Time
-	Shard    int // this shard
-	NShards  int // 0/1 = no sharding
+	Bound      int // max preemptions; <0 = unbounded
+	TotalBound int // max deviations of either kind together (delay bounding); 0 = unlimited
+	FreeBound  int // max non-default choices at points where the running thread is NOT enabled (delay bounding); 0 = unlimited
+	MaxExec    int // 0 = no cap
+	Deadline   time.Time
+	Shard      int // this shard
+	NShards    int // 0/1 = no sharding
 }
 
 type Stats struct {
@@ -120,10 +122,14 @@ func Explore(cfg Config, run func(prefix []int) *Exec) *Stats {
 			}
 		}
 		// children
-		cost := 0
+		cost, free := 0, 0
 		for i := 0; i < len(nd.prefix); i++ {
-			if r.Points[i].RunningEnabled && r.Points[i].Chosen != 0 {
-				cost++
+			if r.Points[i].Chosen != 0 {
+				if r.Points[i].RunningEnabled {
+					cost++
+				} else {
+					free++
+				}
 			}
 		}
 		var kids []node
@@ -134,6 +140,12 @@ func Explore(cfg Config, run func(prefix []int) *Exec) *Stats {
 				c++
 			}
 			if cfg.Bound >= 0 && c > cfg.Bound {
+				continue
+			}
+			if !p.RunningEnabled && cfg.FreeBound > 0 && free+1 > cfg.FreeBound {
+				continue
+			}
+			if cfg.TotalBound > 0 && cost+free+1 > cfg.TotalBound {
 				continue
 			}
 			for alt := 1; alt < len(p.Enabled); alt++ {
